@@ -761,13 +761,19 @@ class C18(Prop):
             yield mk('c18.parse', ch, (stream + stream[:cut][:rng.choice([1, 23, 24, 25, 4000])]).hex(),
                      tag='stream-trailing-partial')
 
-        # (c) exhaustive corruption / truncation / length fields on small frames
+        # (c) exhaustive corruption / truncation / length fields on small frames.  The enumeration that is
+        # partitioned by `idx % nshards` (minimal frames x chains x positions / cut points / one length-field
+        # block per frame) is fixed data: nothing drawn from the per-shard rng influences its order or size, so
+        # every shard assigns the same index to the same member (checked by harness/selftests/c18_shards.py).
+        # The rng only picks the replacement values at a position that this shard owns.
         small = []
         for i, kind in enumerate(NAMES):
             for ci, ch in enumerate(CHAINS):
                 small.append((ch, minimal_msg(kind)))
+        # per-shard random small frames (no index partition applies to them); argument-free types would only
+        # repeat the minimal frames above in every shard
         extra = [(rng.choice(CHAINS), gen_msg(rng, kind, small=True)) for kind in NAMES
-                 for _ in range(30 if big else 1)]
+                 if kind not in ('verack', 'getaddr', 'mempool') for _ in range(30 if big else 1)]
         sm = [(ch, m, b) for (ch, m), b in zip(small + extra, self.model_frames(small + extra)) if b is not None]
         idx = 0
         for si, (ch, m, b) in enumerate(sm):
